@@ -73,7 +73,7 @@ def run(ctx):
     r = ctx.rng
     cases = []
     # (a) interleavings of two queries of different kinds
-    npairs = 40 if ctx.tier == 'quick' else 400
+    npairs = 40 if ctx.tier == 'quick' else 1500
     for _ in range(npairs):
         k1, k2 = r.sample(KINDS, 2)
         qs = [scenario(r, k1), scenario(r, k2)]
@@ -95,7 +95,7 @@ def run(ctx):
         for s in scheds:
             cases.append({'mode': 'inter', 'queries': qs, 'schedule': s, '_solo': so})
     # (b) histories of <= 6 queries drawn from success / parse-error / runtime-error scenarios
-    nseq = 300 if ctx.tier == 'quick' else 6000
+    nseq = 300 if ctx.tier == 'quick' else 30000
     for _ in range(nseq):
         qs = [scenario(r, r.choice(KINDS)) for _ in range(r.randint(2, 6))]
         cases.append({'mode': 'seq', 'queries': qs})
